@@ -59,6 +59,13 @@ OWN = [
     ["name d1", "version 1.0", "type tdm (temporal_modes=%(i)s, copies=%(i)s)", "", "int array p0 =", "    %(i)s, %(i)s, %(i)s", "float array p1 =", "    %(f)s, %(f)s, %(f)s",
      "BSgate(p0, %(f)s) | [%(m)s, %(m)s]", "Rgate(p1) | %(m)s", "MeasureHomodyne(phi=p0) | %(m)s"],
     ["name d2", "version 1.0", "type tdm (temporal_modes=2)", "", "float array p12 =", "    %(f)s, %(f)s", "Rgate(p12) | %(m)s", "Dgate({r}, p12) | %(m)s"],
+    # other spellings / other types with p-named arrays: whatever the loader does with them must survive the round trip
+    ["name d3", "version 1.0", "type TDM (temporal_modes=2)", "", "float array p0 =", "    %(f)s, %(f)s", "int array p1 =", "    %(i)s, %(i)s", "Rgate(p0) | %(m)s", "Dgate(%(f)s, phi=p1) | %(m)s"],
+    ["name d4", "version 1.0", "type Tdm (copies=%(i)s)", "", "float array p3 =", "    %(f)s, %(f)s", "Rgate(p3, k=p3) | %(m)s"],
+    ["name d5", "version 1.0", "type tdm_v2", "", "float array p0 =", "    %(f)s, %(f)s", "Rgate(p0) | %(m)s"],
+    ["name d6", "version 1.0", "type sampling (tdm=True)", "", "complex array p0 =", "    %(f)s+%(f)sj, %(f)sj", "Rgate(p0) | %(m)s", "Gate(k=p0) | %(m)s"],
+    ["name d7", "version 1.0", "target TDM (shots=%(i)s)", "", "float array p0 =", "    %(f)s, %(f)s", "Rgate(p0) | %(m)s"],
+    ["name tdm", "version 1.0", "target tdm", "", "float array p0 =", "    %(f)s, %(f)s", "Rgate(p0) | %(m)s"],
 ]
 
 
